@@ -292,6 +292,36 @@ def or_lists(ctx, wf, model_ok):
             ctx.broken_tie('correspondence', 'or-list vs model', {'list': l, 'implementation': digests[0], 'model': model[idx]})
     ctx.sample({'or_list': lists[70], 'digest': spec[70]})
     ctx.extra['or_lists'] = len(lists)
+    # the same lists through a whole run: `time at ... on all` in each unit mode (the wait is made when the command executes):
+    # the clock is asked to wait for exactly the listed times, once, and the command follows
+    import lang
+    n_runs = 0
+    for idx, l in enumerate(lists):
+        if idx % (2 if ctx.thorough() else 6):
+            continue
+        mode = ['logical', 'raw', 'rgb'][(idx // 6) % 3]
+        line = 'time at ' + ' or '.join(l)
+        src = ['units %s\n%s\non all\n' % (mode, line), '%s\nunits %s\non all\n' % (line, mode)][(idx // 18) % 2]
+        p, e = lang.compile_script(src)
+        if p is None:
+            ctx.counterexample('C11/or-list-rejected', 'accepted patterns joined by `or` are rejected: %r' % src, {'script': src})
+            continue
+        st, evs = lang.run_program_impl(p, lang.SMALL_WORLD, max_steps=500)
+        n_runs += 1
+        ctx.count()
+        waits = [x for x in evs if x.startswith('U|')]
+        got = None
+        if len(waits) == 1:
+            table = set()
+            for alt in waits[0][2:].split('+')[:-1]:
+                hs, ms = alt.split(':')
+                table |= {(int(h), int(m)) for h in hs.split('.')[:-1] for m in ms.split('.')[:-1]}
+            got = digest_of(lambda h, m: (h, m) in table)
+        if st != 'FIN' or got != spec[idx] or not any(x.startswith('AP|') for x in evs):
+            ctx.counterexample('C11/run-does-not-wait-for-the-listed-times',
+                               'running %r in %s units: %s, waits asked of the clock %r (match digest %s, expected %s), events %r'
+                               % (src, mode, st, [w[:40] for w in waits], got, spec[idx], evs[:4]), {'script': src, 'mode': mode})
+    ctx.extra['or_lists_run_through_machine'] = n_runs
 
 
 def compile_accepts(ctx, texts):
